@@ -161,6 +161,14 @@ CONTROLS = [
 
 
 def controls(h):
+    # the reference matcher's memoised capture-free fast path must agree with its generator semantics
+    R = rm.Ref()
+    alpha = [e1.norm_inst(str(i), m, o) for i, (m, o) in enumerate(ALPHA_I)]
+    lists = [[(str(p),) + alpha[i][1:] for p, i in enumerate(idx)] for n in range(0, 4) for idx in itertools.product(range(len(alpha)), repeat=n)]
+    for rc in instr_rules("quick")[::40] + wide_deep_rules("quick"):
+        for L in lists[::9]:
+            if {(i, j) for i in range(len(L) + 1) for j, _ in R.seq(rc.pattern, L, i, {})} != R.spans(rc.pattern, L):
+                raise HarnessError(f"reference fast path disagrees with the generator semantics on {rc.pattern}")
     for pattern, att, expected in CONTROLS:
         norm = [e1.norm_inst(*x) for x in att]
         if rm.Ref().found(pattern, norm) != expected:
